@@ -363,6 +363,9 @@ def gen_literal(rng: random.Random) -> str:
         lines = ['lit']
     # the first line carries the indentation reference: keep it flush
     lines[0] = lines[0].lstrip() or 'lit'
+    # no two blank lines in a row (inside a numpy/google field body napoleon ends the field there; it reports
+    # 'bad docstring' for what follows -- not a silent loss, and not what this generator is after)
+    lines = [l for k, l in enumerate(lines) if not (l.strip() == '' and k and lines[k - 1].strip() == '')]
     return '\n'.join(lines)
 
 
@@ -501,7 +504,11 @@ def gen_doc(rng: random.Random, fmt: str) -> Dict[str, Any]:
         if rng.random() < 0.1:
             fields.append(['custom', None, body(), None])
     for f in fields:
-        f.append(gen_field_more(rng, fmt) if rng.random() < 0.3 else [])
+        more = gen_field_more(rng, fmt) if rng.random() < 0.3 else []
+        if fmt == 'google' and f[0] in ('return', 'yield'):
+            # "Returns:  text: more" reads everything before the first colon as the type: keep colons out
+            more = [b for b in more if b[0] != 'literal']
+        f.append(more)
     admons = gen_admons(rng, fmt)
     cut = rng.randint(0, len(admons))
     return {'obj': obj, 'sig': sig, 'blocks': blocks, 'fields': fields, 'admons': admons[:cut], 'admons_after': admons[cut:],
